@@ -106,6 +106,25 @@ def _worker(job: tuple) -> dict:
         return {"key": key, "error": traceback.format_exc(), "rows": [], "stats": {}, "wall": time.time() - t0}
 
 
+def global_frame_rows(pid: str) -> dict:
+    """C12: the package-wide frame condition 'no function writes module- or class-level state' (pyvc/global_frame.py),
+    one obligation per function of the tree, decided syntactically from the AST"""
+    t0 = time.time()
+    try:
+        from pyvc.global_frame import analyse
+        from pyvc.source import Tree
+        rows = []
+        for r in analyse(Tree(TREE)):
+            rows.append({"name": f"{r['func']}/frame.{r['label']}", "func": r["func"], "label": r["label"], "kind": "frame",
+                         "status": r["status"], "backend": "syntactic frame analysis (no solver)", "ms": 0.0, "line": r["line"],
+                         "serves": [pid], "note": [], "detail": r["detail"],
+                         "replay": {"status": "no-witness", "why": "a write to shared state is a fact about the source text: " + r["detail"]}})
+        return {"key": "package-frame:no-global-state-written", "rows": rows, "stats": {"paths": 0, "sha": "", "inlined": [], "models_used": [],
+                "trusted_used": []}, "wall": time.time() - t0, "lemma": False, "serves": [pid], "trusted": False}
+    except Exception:  # noqa: BLE001
+        return {"key": "package-frame:no-global-state-written", "error": traceback.format_exc(), "rows": [], "stats": {}, "wall": time.time() - t0}
+
+
 def load_proto() -> dict:
     env = dict(os.environ)
     env["PYTHONPATH"] = TREE
@@ -181,6 +200,8 @@ def main() -> int:
         klabels = [k["match"]["label"] for k in load_known() if k["property"] and k.get("status") == "known" and k.get("match", {}).get("label")]
         with ctx.Pool(nproc, initializer=_init_worker, initargs=(_PROTO, TREE, klabels)) as pool:
             results = pool.map(_worker, jobs, chunksize=1)
+    if pid == "C12":
+        results.append(global_frame_rows(pid))
     errors = [r for r in results if r.get("error")]
     rows = [dict(row, contract=r["key"]) for r in results for row in r["rows"] if pid in row["serves"]]
     covers = [r for r in rows if r["kind"] == "cover"]
